@@ -118,6 +118,8 @@ def build_scenario(r, kind: str, seq: List[str]) -> Dict[str, Any]:
             st["together"] = r.random() < 0.4     # every user-data stream of the connection expires in the same instant
         steps.append(st)
         t += r.choice([0.2, 1.5, 3.0, 6.5])
+        if kind == "bitstamp_private" and r.random() < 0.2:
+            t += 65.0        # longer than the life of a websocket token
     for _ in range(r.randint(1, 3)):
         t += 1.2
         steps.append({"at": round(t, 3), "do": "msg", "pick": r.randrange(100)})
@@ -383,7 +385,10 @@ class BitstampAdapter(Adapter):
             return []
         ch = msg.get("data", {}).get("channel", "")
         if self.private:
-            if not msg.get("data", {}).get("auth"):
+            tok = msg.get("data", {}).get("auth")
+            issued = self.run.peer.tokens.get(tok)
+            if not tok or issued is None or self.run.peer.now() - issued > 60.0:
+                # no token, a token the server never issued, or one that has expired meanwhile
                 return ["unauthenticated:" + ch]
             if ch.endswith("-77"):
                 ch = ch[: -3]
